@@ -349,6 +349,42 @@ fn main() {
                 o.parse(&r, true);
                 o.rtag_parse(&r);
             }
+            // --- explicit edge pool (the exclusions and the empty-part cases)
+            if rng.chance(1, 3) {
+                const EDGE_REFS: &[&str] = &[
+                    "refs/heads/HEAD",
+                    "refs/remotes/origin/HEAD",
+                    "refs/remotes/git/main",
+                    "refs/remotes/git/HEAD",
+                    "refs/heads/",
+                    "refs/tags/",
+                    "refs/remotes/origin/",
+                    "refs/remotes//x",
+                    "refs/remotes/origin",
+                    "refs/heads/HEAD/x",
+                    "refs/heads/x/HEAD",
+                    "refs/tags/HEAD",
+                    "refs/remotes/a/b/HEAD",
+                    "refs/remotes/gi/t",
+                    "refs/jj/remote-tags/origin/v1",
+                    "refs/jj/remote-tags/git/v1",
+                    "refs/jj/remote-tags/origin",
+                    "HEAD",
+                    "refs/heads",
+                ];
+                let r = *rng.pick(EDGE_REFS);
+                o.parse(r, true);
+                o.rtag_parse(r);
+            }
+            if rng.chance(1, 6) {
+                let s = Sym {
+                    tag: rng.chance(1, 2),
+                    name: rng.pick(&["HEAD", "", "HEAD/x", "x/HEAD", "refs/heads/main"]).to_string(),
+                    remote: rng.pick(&["git", "origin", "", "HEAD"]).to_string(),
+                };
+                o.export(&s, true);
+                o.rtag_export(&s);
+            }
             if o.panicked {
                 ctx.panicked();
             }
